@@ -1446,6 +1446,13 @@ How the text below is obtained (TRUSTED part of the translator, in addition to G
    `front->when` with `auto &front = todos.front()` is `W.frontWhen`, `todos.pop_front()` after
    `auto task = std::move(front)` is `W.popFront`, `task->what()` is `W.runTask`, `todos.empty()` is `W.todosEmpty`;
    the deadline object is the fields of its flavour, its `Remaining()/TimeLeft()` the stage-1 leaves of that flavour;
+ * `SocketAsyncImpl::DriverSend / DriverSendTo` and the enqueue side `Send / SendTo -> DoSend -> DoSendEnqueue` run over
+   `QueueWorld` (prelude): `auto &&[promise, buffer(, addr)] = q.front()` names fields of the front element; `q.size()`,
+   `q.empty()`, `q.pop()`, `q.emplace(..)`, `buffer->size()`, `buffer->erase(0, n)`, `promise.set_value()`,
+   `promise.set_exception(..)`, `buff->sock->SendSome(buffer->data(), n)`, `buff->sock->SendTo(buffer->data(), n,
+   addr->ForUdp())`, `buff->sock->DriverPending()`, `driver.lock()`, `ptr->AsyncWantSend(buff->sock->fd)` are its fields;
+   `try B catch(X const &) H` is `M.tryCatch .X B H` (B, H yield `some v` on `return v`); the function-level
+   `std::lock_guard<std::mutex> lock(sendQMtx)` is `W.lock` and `W.unlock` before every `return`;
  * a `string_view` is its cursor plus the text of its immutable end (length = end - cursor); the fixed arguments of a
    loop are all parameters and all locals it does not change, in declaration order (canonical loop signature);
  * `do B while(c)`, `for(;;) B`, `while(c) B` become `<F>_loop<k>`: structural recursion on a fuel
